@@ -341,14 +341,15 @@ class Check(object):
 
 
 def regenerate(specs):
-    """run tools/py2lean.py for every spec (paths relative to lean/); returns 'ok' or the reason"""
+    """run the spec's translator (tools/py2lean.py or tools/py2lean_fn.py) for every spec (paths relative to lean/); returns 'ok' or the reason"""
     status = 'ok'
     for sp in specs:
         spec_path = os.path.join(LEAN, sp)
-        out = os.path.join(LEAN, json.load(open(spec_path))['output'])
+        spec = json.load(open(spec_path))
+        out = os.path.join(LEAN, spec['output'])
         os.makedirs(os.path.dirname(out), exist_ok=True)
         tmp = out + '.new'
-        r = sh([sys.executable, os.path.join(VERIF, 'tools', 'py2lean.py'), spec_path, REPO, tmp])
+        r = sh([sys.executable, os.path.join(VERIF, 'tools', spec.get('translator', 'py2lean.py')), spec_path, REPO, tmp])
         if r.returncode != 0:
             status = 'untranslatable: ' + (r.stdout + r.stderr).strip()[-300:]
             if os.path.exists(tmp):
